@@ -928,8 +928,8 @@ func (w *world) runCase(out *bufio.Writer, id string, limit int, req request) {
 		// as soon as the transaction is in the store (or after a short while)
 		ctx, cancel = context.WithCancel(context.Background())
 		go func() {
-			for i := 0; i < 400; i++ {
-				time.Sleep(500 * time.Microsecond)
+			for i := 0; i < 100; i++ {
+				time.Sleep(2 * time.Millisecond)
 				if w.e.NumTx() != before {
 					break
 				}
@@ -1135,12 +1135,15 @@ func main() {
 		return env.Pick(r, limits)
 	}
 	sideCount := 0
+	mainCount := 0
 	rebuilt := 0
 	route := func(id string, req request) {
 		l := pickLimit()
 		if deletesValid(req) {
 			main.runCase(out, id, l, req)
-			if main.dirty {
+			mainCount++
+			if main.dirty || mainCount%200 == 0 { // also bounds the stores: every case lists the transactions and snapshots all targets
+
 				main.e.StopControllers()
 				main = newWorld(true, limits)
 				rebuilt++
@@ -1149,6 +1152,9 @@ func main() {
 		} else if sideCount < *nNil {
 			sideCount++
 			side.runCase(out, id, l, req)
+			if sideCount%100 == 0 {
+				side = newWorld(false, limits)
+			}
 		}
 	}
 	// clean stream: valid paths, plain keys, known targets
